@@ -4,7 +4,7 @@ import ast
 from ..index import AnalysisError, attr_chain, norm, own_nodes
 from ..query import calls_in, call_name
 from ..condeval import check_cond, ev, Unknown
-from .common import TLSREC, dead_edge_labels, must_pass
+from .common import TLSREC, dead_edge_labels, must_pass, borrowed
 
 EXPLANATION = (
     "Framing rules over every parser of messages.py, extensions.py and x509.py. PAIR: each "
@@ -411,4 +411,6 @@ RULES = [
     ("C15.LOOPS", "quick", rule_loops),
     ("C15.REGISTRY", "quick", rule_registry),
     ("C15.WRITER", "quick", rule_writer),
+    # declared lengths bound what is accepted (incl. the declared size of a compressed certificate)
+    ("C15.CAP", "quick", borrowed("c08", "rule_cap", "C08.CAP", "C15.CAP")),
 ]
